@@ -30,6 +30,9 @@ CHECKS = {
  "C02": dict(cat="fault_enumeration", ref="3 (C02)", technique="crash-point enumeration over journalled generated workloads (every journal prefix recovered and compared with the acknowledged/in-flight states)",
    text="Each proptest-generated write workload runs on a journalling MemFs; every prefix of its totally ordered mutating filesystem calls is rebuilt as a crash image, recovered with varied reuse_log_files/config, compared with the acknowledged state (+ optionally the whole in-flight batch), then written to, closed, reopened and compared again; a sample of recoveries is itself crashed (depth 2). Enumeration of all crash points of a workload is complete (quick: for journals <= 400 entries); the workloads are a generated sample.",
    note="Crash model: every completed filesystem call is durable, nothing else is (process crash, no page-cache loss); torn calls are C16."),
+ "C08": dict(cat="fault_enumeration", ref="3 (C08)", technique="single-fault enumeration over the filesystem call stream of generated workloads (transient and sticky), oracle = acknowledged-writes model with all-or-nothing maybe-set",
+   text="Every filesystem call of a generated workload (after the initial open) is failed once (transient) and persistently (sticky); during the run each read must return an allowed value or an error, writes that returned Ok are in the model, failed writes form an all-or-nothing maybe-set, no call may hang; after disarming, close/reopen must succeed and the contents must equal the acknowledged writes plus all-or-nothing of the failed ones. Quick enumerates all positions for runs <= 600 calls.",
+   note="Failures have no side effect on the file (partial writes are C16). Cases whose divergence coincides with the iterator-step error-swallowing counter are attributed to the open known finding iter-step-error-swallowed (KNOWN_FINDINGS.txt) and counted under excluded_known."),
  "C12": dict(cat="exploration", ref="5 (C12)", technique="round-trip property testing of LogWriter/LogReader with an enumerated block-boundary family",
    text="Round-trip through the real LogWriter/LogReader over generated record-length lists, writer re-open points, writer death between fragments and final truncation at any byte, with an independent model of the block layout; the block-boundary arithmetic (offsets within 20 bytes of a boundary x lengths within 20 bytes of the remaining room) is enumerated completely in the thorough tier.",
    note="Reached through wrappers in src/verif.rs; checksum corruption is C15's subject, not C12's."),
